@@ -44,7 +44,8 @@ type responseWriter struct {
 	size        int          // The written size of the response.
 	beforeFuncs []BeforeFunc // The list of functions to be called before written to the response.
 
-	writeHeaderOnce sync.Once
+	writeHeaderMu sync.Mutex // Serializes sending the status.
+	beforeOnce    sync.Once  // The before functions run once, whatever becomes of the status.
 }
 
 // BeforeFunc is a function that is called before the ResponseWriter is written.
@@ -65,15 +66,18 @@ func (w *responseWriter) callBefore() {
 }
 
 func (w *responseWriter) WriteHeader(s int) {
-	w.writeHeaderOnce.Do(func() {
-		if w.Written() {
-			return
-		}
+	w.writeHeaderMu.Lock()
+	defer w.writeHeaderMu.Unlock()
+	if w.Written() {
+		return
+	}
 
-		w.callBefore()
-		w.ResponseWriter.WriteHeader(s)
-		atomic.StoreInt32(&w.status, int32(s))
-	})
+	// When a before function or the underlying WriteHeader panics (net/http refuses an
+	// invalid status code that way), nothing has been sent: the response stays
+	// unwritten, so that a recovering middleware can still send its own status.
+	w.beforeOnce.Do(w.callBefore)
+	w.ResponseWriter.WriteHeader(s)
+	atomic.StoreInt32(&w.status, int32(s))
 }
 
 func (w *responseWriter) Write(b []byte) (size int, err error) {
